@@ -15,7 +15,9 @@ from ..core import AnalysisError, Loc, Report, Source, norm
 from ..flow import Ctx, FlowWalker, State
 from ..handlers import FnRef, concrete_handlers, implementations
 from ..pyfront import ClassInfo, Program, body_without_docstring, param_names, self_attr
+from ..guards import atoms
 from ..normalize import canon, flat
+from ..resolve import split_atom
 from ..selftest import Edit, Patch
 
 ID = "C05"
@@ -123,13 +125,22 @@ def _eval_guard(test: ast.AST, env: Dict[str, bool], rate: str, active: str, rec
         return env["active"]
     if self_attr(test) == rec:
         return env["recorded"]
-    if isinstance(test, ast.Compare) and len(test.ops) == 1 and isinstance(test.left, ast.Name) and test.left.id == rate \
-            and isinstance(test.comparators[0], ast.Constant) and test.comparators[0].value == 0:
-        op = test.ops[0]
-        if isinstance(op, ast.Gt):
-            return env["positive"]
-        if isinstance(op, ast.LtE):
-            return not env["positive"]
+    if isinstance(test, ast.Compare) and len(test.ops) == 1:
+        # oriented, normalised atom: `rate > 0`, `0 < rate`, `not rate <= 0` all read "0 < rate"
+        at = atoms(test)
+        sp = split_atom(at[0]) if len(at) == 1 else None
+        if sp is not None:
+            l, op, r = sp
+
+            def zero(x: str) -> bool:
+                try:
+                    return float(x) == 0
+                except ValueError:
+                    return False
+            if zero(l) and r == rate and op == "<":
+                return env["positive"]
+            if l == rate and zero(r) and op == "<=":
+                return not env["positive"]
     return None
 
 
